@@ -39,7 +39,7 @@ fn main() {
         .unwrap_or(0);
 
     core::install_panic_hook();
-    let Some(prop) = vlib::props::property(id) else {
+    let Some(prop) = vlib::props::property(id, tier) else {
         eprintln!("unknown property {id}");
         std::process::exit(2);
     };
